@@ -228,6 +228,37 @@ int main(int argc, char** argv)
 				J.method = K.method;	 // at least one earlier call of the same method (shared function-local state)
 			H.push_back(J);
 		}
+		// the call immediately before the observed one often shares its region (or is the very same call): state keyed on the region must not leak either
+		if(g.coin(0.6))
+		{
+			Job J = K;
+			if(g.coin(0.7))
+			{
+				Job F	 = random_job(g, (int)g.range(1, 3), true);
+				J.fam	 = F.fam;
+				J.budget = F.budget;
+				J.seed	 = F.seed;
+				// parameters of the other family on K's region
+				J.par.clear();
+				for(int j = 0; j < J.dim; j++)
+				{
+					double lo = J.region[j], hi = J.region[j + J.dim], m = std::max(std::fabs(lo), std::fabs(hi));
+					if(J.fam == 1)
+						J.par.push_back(0.5 / m);
+					else if(J.fam == 2)
+					{
+						J.par.push_back(lo + 0.4 * (hi - lo));
+						J.par.push_back(0.5 * (hi - lo));
+					}
+					else
+					{
+						J.par.push_back(0.3 / m);
+						J.par.push_back(0.2 / (m * m));
+					}
+				}
+			}
+			H.push_back(J);
+		}
 		ChildResult rf = run_child([&]() { Outcome O = run_job(K); return call_event(K, O, "fresh", 0).dump(); }, 120);
 		if(!rf.returned)
 		{
